@@ -221,7 +221,12 @@ fn is_highlighted(ch: char) -> bool {
 }
 
 fn highlight(ch: char) -> char {
-    return unsafe{char::from_u32_unchecked(ch as u32 | 0xC0)};    // 0x28C0..0x28FF all have dots 7 & 8 on
+    let ch_as_u32 = ch as u32;
+    if (0x2800..=0x28FF).contains(&ch_as_u32) {
+        return unsafe{char::from_u32_unchecked(ch_as_u32 | 0xC0)};    // 0x28C0..0x28FF all have dots 7 & 8 on
+    } else {
+        return ch;      // not a braille cell (a char that is passed through because the code defines no braille for it) -- can't add dots
+    }
 }
 
 fn unhighlight(ch: char) -> char {
